@@ -222,7 +222,8 @@ fn definite_errors() -> Vec<(String, &'static str)> {
     }
     for n in ["d", "date"] {
         v.push((format!("{{{}(%Y)(utc)(x)}}", n), "arity"));
-        for z in ["UTC", "gmt", "", "{m}", "loc", "utc "] {
+        // not a zone under any spelling leniency (case, white space and aliases such as GMT are the library's choice)
+        for z in ["mars", "utcx", "", "{m}", "12:99", "no/such_zone"] {
             v.push((format!("{{{}(%Y)({})}}", n, z), "timezone"));
         }
     }
